@@ -159,6 +159,8 @@ def _setup_py(spec):
                 L.append("from helper_mod import REQUIRES as requires")
             if spec.get("cond_dir"):
                 L.append("if os.path.exists(os.path.join(here, %r)):\n    requires = list(requires.split('\\n') if isinstance(requires, str) else requires) + ['dirdep>=1']" % spec["cond_dir"])
+            if spec.get("cond_missing"):
+                L.append("if not os.path.exists(os.path.join(here, %r)):\n    requires = list(requires.split('\\n') if isinstance(requires, str) else requires) + ['nodir>=1']" % spec["cond_missing"])
             kw.append("install_requires=requires")
             extras = dict(spec["extras"])
             extras.update(spec.get("marker_extra", {}))
@@ -289,6 +291,8 @@ def declared(spec):
         reqs.append(str(GL.P(r)))
     if spec.get("cond_dir") and spec["style"] == "kwargs":
         reqs.append("dirdep>=1")      # the directory is part of every generated project
+    if spec.get("cond_missing") and spec["style"] == "kwargs":
+        reqs.append("nodir>=1")       # the path does not exist in any generated project
     extras = dict(spec["extras"])
     if spec["style"] == "kwargs":
         extras.update(spec.get("marker_extra", {}))
